@@ -46,10 +46,10 @@ class KaniEngine:
         `cargo kani -j N` invocation; everything else runs with -j 16"""
         groups = {}
         for h in harnesses:
-            groups.setdefault(int(h.get("jobs", 16)), []).append(h)
+            groups.setdefault((int(h.get("jobs", 16)), h.get("cbmc", "")), []).append(h)
         merged = None
-        for jobs in sorted(groups, reverse=True):
-            res = self._run_group(groups[jobs], tier, log, jobs)
+        for jobs, cbmc in sorted(groups, reverse=True):
+            res = self._run_group(groups[(jobs, cbmc)], tier, log, jobs, cbmc)
             if res.get("fatal"):
                 return res
             if merged is None:
@@ -60,7 +60,7 @@ class KaniEngine:
                 merged["unit"]["wall_s"] = merged["unit"].get("wall_s", 0) + res["unit"].get("wall_s", 0)
         return merged
 
-    def _run_group(self, harnesses, tier, log, jobs):
+    def _run_group(self, harnesses, tier, log, jobs, cbmc=""):
         try:
             info = self._prep()
         except Exception as e:  # noqa: BLE001  (lost anchor, missing file ...)
@@ -75,6 +75,9 @@ class KaniEngine:
                                  "--export-json", jpath]
         for n in names:
             cmd += ["--harness", n]
+        if cbmc:
+            # extra CBMC arguments for this group (`//# cbmc:`), e.g. a per-loop unwinding bound for the memcmp builtin
+            cmd += ["--cbmc-args"] + cbmc.split()
         unit = {"cmd": " ".join(cmd) + f"   (cwd {crate})", "sources": info.get("sources", {}),
                 "trusted": info.get("trusted", []), "assumptions": info.get("assumptions", [])}
         log(f"[{self.name}] kani: {len(names)} harnesses, -j {jobs}, per-harness timeout {tmo}s")
